@@ -15,6 +15,7 @@ from __future__ import annotations
 
 import contextlib
 import io
+import logging
 import math
 import struct
 import sys
@@ -110,9 +111,16 @@ def close_deep(a, b, rel=REL):
 
 @contextlib.contextmanager
 def quiet():
-    with warnings.catch_warnings(), np.errstate(all="ignore"), contextlib.redirect_stdout(io.StringIO()):
-        warnings.simplefilter("ignore")
-        yield
+    """Everything the code prints or logs is captured and dropped (stdout, warnings, logging)."""
+    prev = logging.root.manager.disable
+    logging.disable(logging.CRITICAL)
+    try:
+        with warnings.catch_warnings(), np.errstate(all="ignore"), contextlib.redirect_stdout(io.StringIO()), \
+                contextlib.redirect_stderr(io.StringIO()):
+            warnings.simplefilter("ignore")
+            yield
+    finally:
+        logging.disable(prev)
 
 
 # ----------------------------------------------------------------------------
@@ -181,11 +189,14 @@ def cfg_j(case, maxiters):
             "kappatol": bits(o["kappatol"]), "inexact": bool(o["inexact"])}
 
 
-def kwargs_of(case):
+PRINTITNS = (1, 2, 3)  # 1 is the default of cp_apr; 0 (silent) is the reference run
+
+
+def kwargs_of(case, printitn=0):
     o = case["opts"]
     alg = case["alg"]
     kw = dict(stoptol=o["stoptol"], maxinneriters=o["maxinneriters"], epsDivZero=o["epsDivZero"],
-              printitn=0, printinneritn=0)
+              printitn=printitn, printinneritn=0)
     if alg == "mu":
         kw.update(kappa=o["kappa"], kappatol=o["kappatol"])
     elif alg == "pdnr":
@@ -275,14 +286,14 @@ def recording(alg, rec, calls=None):
         C.tt_linesearch_prowsubprob = orig
 
 
-def run_impl(case, maxiters):
+def run_impl(case, maxiters, printitn=0, record=True):
     data = mk_data(case["data"])
     guess = mk_kt(case["init"])
     before = (snapshot(data), snapshot(guess))
     rec, calls = [], []
-    with recording(case["alg"], rec, calls), quiet():
+    with (recording(case["alg"], rec, calls) if record else contextlib.nullcontext()), quiet():
         res = call(lambda: ttb.cp_apr(data, case["rank"], algorithm=case["alg"], init=guess, maxiters=maxiters,
-                                      **kwargs_of(case)))
+                                      **kwargs_of(case, printitn)))
     untouched = (snapshot(data) == before[0], snapshot(guess) == before[1])
     if "ok" in res:
         M, init_back, out = res["ok"]
@@ -297,6 +308,38 @@ def run_impl(case, maxiters):
             "init_is_guess": init_back is guess,
         }}
     return res, rec, untouched, calls
+
+
+PRINT_REL = 1e-12
+
+
+def max_rel_diff(a, b):
+    """Largest |x - y| / max(1, |y|) over two equally shaped nested lists (inf if shapes differ)."""
+    if isinstance(a, list) and isinstance(b, list):
+        if len(a) != len(b):
+            return math.inf
+        return max([max_rel_diff(x, y) for x, y in zip(a, b)] + [0.0])
+    if isinstance(a, list) or isinstance(b, list):
+        return math.inf
+    a, b = float(a), float(b)
+    if a == b or (math.isnan(a) and math.isnan(b)):
+        return 0.0
+    if not (math.isfinite(a) and math.isfinite(b)):
+        return math.inf
+    return abs(a - b) / max(1.0, abs(b))
+
+
+def printing_difference(r0, rp):
+    """'' if the run with printing returned what the silent run returned (decision fields exactly,
+    numbers to 1e-12); otherwise what differs."""
+    if len(rp["kkt"]) != len(r0["kkt"]) or rp["nInner"] != r0["nInner"] or rp["nViol"] != r0["nViol"]:
+        return (f"printing changes the decision fields: iterations {len(r0['kkt'])} -> {len(rp['kkt'])}, "
+                f"nInnerIters {r0['nInner']} -> {rp['nInner']}")
+    d = max(max_rel_diff(rp["obj"], r0["obj"]), max_rel_diff(rp["kkt"], r0["kkt"]),
+            max_rel_diff(rp["weights"], r0["weights"]), max_rel_diff(rp["factors"], r0["factors"]))
+    if d > PRINT_REL:
+        return f"printing changes the returned numbers by {d:.3e} (obj {r0['obj']!r} -> {rp['obj']!r})"
+    return ""
 
 
 # ----------------------------------------------------------------------------
@@ -507,7 +550,9 @@ class Runs(Family):
             runs = []
             for k in range(1, c["kmax"] + 1):
                 res, rec, untouched, calls = run_impl(c, k)
-                runs.append((k, res, rec, untouched, calls))
+                # the same request with the progress lines on (captured): printitn 1 (default), 2, 3
+                printed = [(p,) + run_impl(c, k, p, record=False)[0:3:2] for p in PRINTITNS]
+                runs.append((k, res, rec, untouched, calls, printed))
                 reqs.append({"op": "c11_run_float", "alg": c["alg"], "data": c["data"], "init": c["init"],
                              "cfg": cfg_j(c, k), "dirs": rec})
                 where.append((ci, len(runs) - 1))
@@ -550,7 +595,24 @@ class Runs(Family):
         last_ok = None
         prev = None
         pending = None
-        for (k, res, rec, untouched, calls), m in zip(runs, ms):
+        for (k, res, rec, untouched, calls, printed), m in zip(runs, ms):
+            # printing must not change what is returned, and what is returned must be truthful
+            for p, pres, puntouched in printed:
+                if ("ok" in pres) != ("ok" in res):
+                    return Verdict("violation", f"maxiters={k} printitn={p}: the call "
+                                   f"{'returns' if 'ok' in pres else 'raises ' + str(pres.get('msg'))} "
+                                   f"but {'raises' if 'ok' in pres else 'returns'} with printitn=0", pres, None, None,
+                                   tags + [f"printitn{p}"], False)
+                if "ok" not in pres:
+                    continue
+                what = property_violation(c, k, pres["ok"], puntouched)
+                if what:
+                    return Verdict("violation", f"maxiters={k} printitn={p}: {what}", pres["ok"], None, None,
+                                   tags + [f"printitn{p}"])
+                what = printing_difference(res["ok"], pres["ok"])
+                if what:
+                    return Verdict("violation", f"maxiters={k} printitn={p}: {what}", pres["ok"], None, res["ok"],
+                                   tags + [f"printitn{p}"])
             if "ok" not in res:
                 msg = res.get("msg", "")
                 if c["alg"] == "pqnr" and LBFGS_MSG in msg:
@@ -594,6 +656,7 @@ class Runs(Family):
         tags.append("converged" if len(last_ok["kkt"]) < c["kmax"] else "limit")
         tags.append(f"ndirs{min(len(runs[-1][2]) // 50, 5)}")
         allcalls = [cl for run in runs for cl in run[4]]
+        tags.append("printitn0123")
         if any(cl["margin"] < TIE for cl in allcalls):
             tags.append("has-tie-call")
         if any(cl["fallback"] for cl in allcalls):
